@@ -25,6 +25,12 @@ META = {
     "C18": {"technique": "property-based testing of each built-in function against independent laws and its own declared types",
             "level_text": "Generated-input search over the declared parameter domains with boundary-value classes; oracle = totality (no panic/death), result validates against the declared or derived output type, determinism, and laws written independently of the implementation.",
             "level_note": "trusted base: Go's math/strconv/strings/big packages used as reference implementations; the functions are called through CallableFunction.Call in a worker process with a 4 GiB address-space limit"},
+    "C10": {"technique": "property-based testing: generated workflows, expected-graph oracle (set equality) + enumerated single-point corruptions",
+            "level_text": "Generated-input search: the prepared DAG must equal (nodes and typed edges, both directions) the graph a reference derives from the workflow text; generated single-point corruptions of accepted programs must all be rejected.",
+            "level_note": TB + "; corruption kinds are limited to ones whose invalidity follows from the property text"},
+    "C16": {"technique": "metamorphic property-based testing: repeat / permute / rename transformations of generated workflows",
+            "level_text": "Metamorphic relations over generated programs: repetition, reordering and consistent renaming must leave verdict, graph, output schemas and namespaces unchanged up to names and generated identifiers.",
+            "level_note": TB + "; Go map iteration order is exercised by repetition, not controlled"},
 }
 
 NOT_APPLICABLE = []
